@@ -879,3 +879,90 @@ def c08_struct(tier="quick", seed=0):
     comp = _S_.unparse(S.fn("microjs.compiler", "Compiler._compile_arrow_function"))
     out.append(ob("C08.struct.arrow-flag-set-by-compiler", "is_arrow=True" in comp, "K3", "_compile_arrow_function marks the compiled function as an arrow"))
     return out
+
+
+@groups.group(id="C08.bounded.index-keys", prop="C08", kind="B", functions=["microjs.vm:VM._get_property", "microjs.vm:VM._execute_opcode[IN]", "microjs.values:JSArray.has_own", "microjs.values:_is_array_index"])
+def c08_index_keys(tier="quick", seed=0):
+    """reads, `in`, hasOwnProperty, Object.keys and delete agree on which keys of an array / string are elements: canonical
+    index strings only (the grid of C17, here for the agreement C08 asks for)"""
+    from contracts.C17_arrays import c17_index_keys
+    out = []
+    for o in c17_index_keys(tier, seed):
+        o = dict(o)
+        o["id"] = o["id"].replace("C17.", "C08.", 1)
+        o["finding_key"] = o["id"]
+        out.append(o)
+    return out
+
+
+# ---- bounded: built-in methods called with another receiver (call / apply / bind / detached then call) --------------------
+NATIVE_METHODS = {
+    # receiver kind -> (an object the method value is READ from, the receiver it is then CALLED on, [(method, args, what the call on the new receiver gives)])
+    "array": ("[9, 9, 9]", "[3, 1, 2]", [("slice", "1", "1,2"), ("slice", "", "3,1,2"), ("join", "'-'", "3-1-2"), ("indexOf", "1", "1"), ("concat", "[7]", "3,1,2,7"), ("map", "function (x) { return x * 2 }", "6,2,4"),
+                                        ("filter", "function (x) { return x > 1 }", "3,2"), ("reduce", "function (a, b) { return a + b }", "6"), ("includes", "2", "true"), ("toString", "", "3,1,2"),
+                                        ("some", "function (x) { return x == 1 }", "true"), ("every", "function (x) { return x > 0 }", "true"), ("find", "function (x) { return x < 3 }", "1"), ("lastIndexOf", "2", "2")]),
+    "array-mutating": ("[9, 9, 9]", "[3, 1, 2]", [("push", "5", "4|3,1,2,5"), ("pop", "", "2|3,1"), ("shift", "", "3|1,2"), ("unshift", "0", "4|0,3,1,2"), ("reverse", "", "2,1,3|2,1,3"), ("sort", "", "1,2,3|1,2,3"),
+                                                 ("splice", "0, 1", "3|1,2"), ("sort", "function (a, b) { return b - a }", "3,2,1|3,2,1"), ("forEach", "function (x, i, a) { a[i] = x + 1 }", "undefined|4,2,3")]),
+    "string": ("'zzz'", "'Abc'", [("toUpperCase", "", "ABC"), ("charAt", "1", "b"), ("indexOf", "'c'", "2"), ("slice", "1", "bc"), ("split", "''", "A,b,c"), ("concat", "'d'", "Abcd"), ("replace", "'b', 'x'", "Axc"),
+                                  ("trim", "", "Abc"), ("repeat", "2", "AbcAbc"), ("startsWith", "'A'", "true"), ("charCodeAt", "0", "65"), ("substring", "1, 2", "b"), ("toLowerCase", "", "abc"), ("includes", "'bc'", "true")]),
+    "number": ("(9)", "(255)", [("toString", "16", "ff"), ("toFixed", "1", "255.0"), ("toString", "", "255"), ("toExponential", "1", "2.6e+2"), ("toPrecision", "2", "2.6e+2")]),
+    "regexp": ("/zzz/", "/b/", [("test", "'abc'", "true"), ("exec", "'abc'", "b")]),
+    "typed": ("new Uint8Array([9, 9])", "new Uint8Array([1, 2, 3])", [("join", "'-'", "1-2-3"), ("subarray", "1", "2,3"), ("toString", "", "1,2,3")]),
+}
+
+
+@groups.group(id="C08.bounded.native-call-forms", prop="C08", kind="B", functions=["microjs.vm:VM._make_callable_method", "microjs.vm:VM._for_receiver", "microjs.vm:VM._get_property"])
+def c08_native_call_forms(tier="quick", seed=0):
+    """`this` is bound by the call form also for built-in methods: f.call(r, ...), f.apply(r, [...]), f.bind(r)(...), and a method
+    value read from one object (or from the prototype) and called on another, act on r -- never on the object the method
+    value was read from, which stays as it was"""
+    from microjs import Context
+    out = []
+    for kind, (src_obj, recv, methods) in NATIVE_METHODS.items():
+        bad = None
+        n = 0
+        for m, args, want in methods:
+            sep = ", " if args else ""
+            forms = {"call": f"f.call(r{sep}{args})", "apply": f"f.apply(r, [{args}])", "bind": f"f.bind(r)({args})", "bind-partial": f"f.bind(r{sep}{args})()",
+                     "call-call": f"Function.prototype.call.call ? f.call.call(f, r{sep}{args}) : 0"}
+            sources = {"other-instance": src_obj + "." + m}
+            if kind.startswith("array"):
+                sources["prototype"] = "Array.prototype." + m
+                sources["empty-literal"] = "[]." + m
+            for sn, fexpr in sources.items():
+                for fname, call in forms.items():
+                    if fname == "call-call":
+                        continue
+                    mut = kind == "array-mutating"
+                    prog = (f"var src = {src_obj}; var before = String(src.join ? src.join() : src); var f = {fexpr if sn != 'other-instance' else 'src.' + m}; var r = {recv}; var v = {call}; "
+                            + ("var res = String(v && v.join ? v.join() : v) + '|' + r.join(); " if mut else "var res = String(v && v.join ? v.join() : (v && v[0] !== undefined && typeof v !== 'string' ? v[0] : v)); ")
+                            + "res + '#' + (String(src.join ? src.join() : src) === before)"
+                            + (" + '#' + Array.prototype.length" if kind.startswith("array") else ""))
+                    n += 1
+                    try:
+                        got = Context(time_limit=10).eval(prog)
+                    except BaseException as e:  # noqa
+                        got = f"!{type(e).__name__}: {e}"[:160]
+                    exp = want + "#true" + ("#0" if kind.startswith("array") else "")
+                    if got != exp and bad is None:
+                        bad = (prog, f"{m} via {sn}/{fname}: {got!r}, ECMAScript {exp!r}")
+        out.append(ob(f"C08.bounded.native-call-forms.{kind}", bad is None, "B", f"{n} (method, source of the method value, call form) cases" if bad is None else bad[1],
+                      witness=(bad[0] if bad else None), confirmed=True if bad else None, domain=n))
+    # the idioms
+    idioms = [("arguments-to-array", "function f() { return [].slice.call(arguments).join() } f(1, 2, 3)", "1,2,3"),
+              ("arguments-rest", "function f() { return Array.prototype.slice.call(arguments, 1).join() } f(1, 2, 3)", "2,3"),
+              ("push-apply", "var a = [1]; Array.prototype.push.apply(a, [2, 3]); a.join()", "1,2,3"),
+              ("max-apply", "Math.max.apply(null, [1, 5, 2])", 5),
+              ("hasOwnProperty-call", "Object.prototype.hasOwnProperty.call({a: 1}, 'a') + '|' + Object.prototype.hasOwnProperty.call({a: 1}, 'b')", "true|false"),
+              ("toString-call", "Object.prototype.toString.call([]) + Object.prototype.toString.call(null)", "[object Array][object Null]"),
+              ("incompatible-receiver", "var r; try { [].push.call({}, 1); r = 'accepted' } catch (e) { r = e.name } r + '|' + Array.prototype.length", "TypeError|0"),
+              ("detached-method-keeps-its-object", "var a = [1, 2]; var m = a.map; m(function (x) { return x + 1 }).join()", "2,3"),
+              ("map-call-on-string-method", "'x'.toUpperCase.call('abc')", "ABC")]
+    for name, src, exp in idioms:
+        try:
+            got = Context(time_limit=10).eval(src)
+        except BaseException as e:  # noqa
+            got = f"!{type(e).__name__}: {e}"[:160]
+        out.append(ob(f"C08.bounded.native-call-forms.idiom.{name}", _same(got, exp), "B", f"{src} => {got!r}" + ("" if _same(got, exp) else f" (ES: {exp!r})"),
+                      witness=None if _same(got, exp) else src, confirmed=None if _same(got, exp) else True, domain=1))
+    return out
